@@ -657,7 +657,17 @@ def validate_conc(work, trace, witness=False, timeout=600):
     return "inconclusive", None, res
 
 
-def conc_stage(rep, work, name, systems, clients, runs, ops, keys, gated, race=False, witness=False, timeout=900, seq=0):
+def build_server_binary():
+    """Builds /repo/cmd/gofakes3 (no hooks needed) for the kill -9 runs."""
+    out = os.path.join(VERIF, ".work", "gofakes3bin")
+    p = subprocess.run(["go", "build", "-o", out, "./cmd/gofakes3"], cwd=REPO, env=GOENV, capture_output=True, text=True)
+    if p.returncode != 0:
+        raise Infra("building cmd/gofakes3 failed:\n" + p.stderr)
+    return out
+
+
+def conc_stage(rep, work, name, systems, clients, runs, ops, keys, gated, race=False, witness=False, timeout=900, seq=0,
+               kill_rounds=0):
     tag = re.sub(r"\W", "_", name)
     trace = work.path("conc.%s.ndjson" % tag)
     out = work.path("conc.%s.json" % tag)
@@ -667,6 +677,9 @@ def conc_stage(rep, work, name, systems, clients, runs, ops, keys, gated, race=F
            "--trace", trace, "--out", out, "--gated=%s" % ("true" if gated else "false")]
     if seq:
         cmd += ["--seq", str(seq)]
+    if kill_rounds:
+        cmd = [binary, "kill", "--bin", build_server_binary(), "--kinds", ",".join(systems), "--seed", str(rep.seed),
+               "--runs", str(runs), "--rounds", str(kill_rounds), "--trace", trace, "--out", out]
     env = dict(os.environ, GORACE="halt_on_error=0 history_size=3")
     p = subprocess.run(cmd, capture_output=True, text=True, env=env, timeout=timeout)
     err = p.stderr
@@ -677,7 +690,7 @@ def conc_stage(rep, work, name, systems, clients, runs, ops, keys, gated, race=F
         first = err[err.index("WARNING: DATA RACE"):][:6000]
         in_repo = "/repo/" in first or "gofakes3" in first
         if in_repo:
-            rp = os.path.join(VERIF, "replays", "C07-race-%s.txt" % hashlib.sha1(first.encode()).hexdigest()[:16])
+            rp = os.path.join(VERIF, "replays", rep.prop + "-race-%s.txt" % hashlib.sha1(first.encode()).hexdigest()[:16])
             with open(rp, "w") as f:
                 f.write(first)
             fid = classify(rep.prop, ",".join(systems), "Race", first)
@@ -689,7 +702,7 @@ def conc_stage(rep, work, name, systems, clients, runs, ops, keys, gated, race=F
     if p.returncode != 0 and not (raced and os.path.exists(out)):
         if "fatal error:" in err or "panic:" in err:
             first = err[max(0, err.find("fatal error:")):][:4000]
-            rp = os.path.join(VERIF, "replays", "C07-fatal-%s.txt" % hashlib.sha1(first.encode()).hexdigest()[:16])
+            rp = os.path.join(VERIF, "replays", rep.prop + "-fatal-%s.txt" % hashlib.sha1(first.encode()).hexdigest()[:16])
             with open(rp, "w") as f:
                 f.write(first)
             rep.violations.append((rp, "the server code died under concurrent requests: " + first.splitlines()[0]))
@@ -702,7 +715,7 @@ def conc_stage(rep, work, name, systems, clients, runs, ops, keys, gated, race=F
         if fid:
             rep.known[fid] = rep.known.get(fid, 0) + 1
         else:
-            rp = os.path.join(VERIF, "replays", "C07-hang-%s.txt" % hashlib.sha1(pr.encode()).hexdigest()[:16])
+            rp = os.path.join(VERIF, "replays", rep.prop + "-hang-%s.txt" % hashlib.sha1(pr.encode()).hexdigest()[:16])
             with open(rp, "w") as f:
                 f.write(pr)
             rep.violations.append((rp, pr))
@@ -774,7 +787,7 @@ def conc_stage(rep, work, name, systems, clients, runs, ops, keys, gated, race=F
         if fid:
             rep.known[fid] = rep.known.get(fid, 0) + 1
             continue
-        rp = os.path.join(VERIF, "replays", "C07-conc-%s.ndjson" % hashlib.sha1("".join(lines).encode()).hexdigest()[:16])
+        rp = os.path.join(VERIF, "replays", rep.prop + "-conc-%s.ndjson" % hashlib.sha1("".join(lines).encode()).hexdigest()[:16])
         with open(rp, "w") as f:
             f.writelines(lines)
         rep.violations.append((rp, desc))
